@@ -121,6 +121,36 @@ func runC07(r *Run) {
 		isGetMsgs := isCallMatching(func(ci CallInfo) bool { return ci.Name == "GetMsgs" })
 		w := PathQuery{Fn: fn, Block: isGetMsgs, Target: next, DelEdge: edgeSet(zero)}.Search()
 		r.Check(w == nil, "R2", fnID(fn)+"#only-bypass-is-zero-price", P.Pos(fnPos(fn)), "next without scanning messages only when MinGasPrice is zero", "the decorator can skip the per-message check for a reason other than a zero minimum gas price", P.witness(w)...)
+		// what is compared is what VerifyFee will deduct: for every non-legacy tx the effective fee. The only
+		// edge around GetEffectiveFee is `TxType() == LegacyTxType`.
+		legacy, _ := condEdges(fn, func(x, y ssa.Value) bool {
+			for _, pr := range [][2]ssa.Value{{x, y}, {y, x}} {
+				if _, ok := callNamed(pr[0], "TxType"); ok {
+					if n, ok := constInt(pr[1]); ok && n == 0 {
+						return true
+					}
+				}
+			}
+			return false
+		})
+		isEff := isCallMatching(func(ci CallInfo) bool { return ci.Name == "GetEffectiveFee" })
+		isCmp := isCallMatching(func(ci CallInfo) bool {
+			if ci.Name != "LT" {
+				return false
+			}
+			a := callArgs(ci.Instr)
+			return len(a) == 2 && depMinPrice(backSlice(a[1]))
+		})
+		okEff := len(legacy) > 0
+		var wit []string
+		for _, b := range assertOkBlocks(as) {
+			if w := (PathQuery{Fn: fn, StartBlock: b, Block: isEff, Target: isCmp, DelEdge: edgeSet(legacy)}).Search(); w != nil {
+				okEff = false
+				wit = P.witness(w)
+			}
+		}
+		r.Check(okEff, "R2", fnID(fn)+"#non-legacy-compares-effective-fee", P.Pos(fnPos(fn)), "for every non-legacy tx the floor is compared with GetEffectiveFee(baseFee)",
+			"a dynamic-fee / access-list tx can reach the floor comparison with its declared fee (fee cap × gas) instead of its effective fee: VerifyFee later deducts only the effective fee, so with a low base fee the tx is accepted while paying less than gasLimit × MinGasPrice", wit...)
 	} else {
 		r.Bad("R2", "anchor/EthMinGasPriceDecorator.AnteHandle", "", "not found")
 	}
